@@ -372,6 +372,31 @@ def run_shard(ctx):
                     if got != expect:
                         ctx.violation(f"clock:{name}:{expect}->{got}", f"with the clock at {ft.t} and leeway {lw}, {name}={v} gave {got}, expected {expect}",
                                       {"clock": ft.t, "leeway": lw, "claim": name, "v": v})
+        # a registry is often built once and used for a long time: "the current time" is the time of the validation
+        for lw in (0, 30):
+            for start in (1_700_000_000.25, 1.5):
+                ft.t = start
+                T0 = int(start)
+                r = call(j.jwt.JWTClaimsRegistry, leeway=lw)
+                if not r.ok:
+                    continue
+                first = call(r.value.validate, {"exp": T0 + 50, "nbf": T0 - 5})
+                for later in (100, 3600, 86400 * 30):
+                    ft.t = start + later
+                    for name, v, expect in (("exp", T0 + 50, "ExpiredTokenError"), ("nbf", T0 + 50, None), ("iat", T0 + 50, None),
+                                            ("exp", T0 + later + lw + 50, None), ("nbf", T0 + later + lw + 50, "InvalidTokenError")):
+                        ctx.ev()
+                        o = call(r.value.validate, {name: v})
+                        ctx.count("clock_cases")
+                        ctx.count("long_lived_registry_cases")
+                        ctx.nontrivial(("clock-later", start, later, lw, name, v))
+                        got = o.etype or None
+                        if got != expect:
+                            ctx.violation(f"clock-later:{name}:{expect}->{got}", f"a registry built (without now) when the clock stood at {start}, used {later} s later with leeway {lw}: "
+                                          f"{name}={v} gave {got}, expected {expect} - the current time is the time of the validation",
+                                          {"clock_at_construction": start, "seconds_later": later, "leeway": lw, "claim": name, "v": v})
+                if not first.ok:
+                    ctx.violation("clock-later:first-validation-fails", f"valid claims refused right after construction: {first.exc!r}", {"clock": start})
     finally:
         regmod.time = real
 
